@@ -96,7 +96,9 @@ impl Drop for Output {
         let _ = match self {
             Output::StdOut => Ok(()),
             Output::Named(target) => std::fs::remove_file(target),
-            Output::InPlace(target) => std::fs::remove_file(target),
+            // The file is owned by `Input`: a temporary copy is removed there,
+            // and with --no-copy it is the original file, which must not be deleted.
+            Output::InPlace(_) => Ok(()),
         };
     }
 }
